@@ -44,7 +44,7 @@ CLAIMED = {
              "block with the right framing headers, and the decoding of the chunk syntax, are decided on every run by the implementation-side oracle (net/http decodes the recorded wire to the handler's status, headers, "
              "trailers, body) and the model correspondence (boundaries and bytes of every conn.Write) on generated programs aimed at the threshold.",
         note="Partial in one respect: the content of `head` (Content-Length value, Transfer-Encoding) and chunk-syntax decoding are oracle-checked, not theorems; c09_http10_flush_refuted is the known finding D9 as a witness on the model. "
-             "ReadFrom/Sendfile path not covered. Trusted: Coq kernel, extraction, OCaml driver, Go harness, net/http's client parser.",
+             "ReadFrom (io.Copy / io.CopyN / ServeContent into the response) is covered as the sequence of Writes of the <= 32 KiB pieces io.Copy reads (harness ops `via`; the limit of an io.LimitedReader over a longer source must be kept - D46); the Sendfile branch of ReadFrom (file range on a plain connection) is exercised by the C10 end-to-end harness only. Trusted: Coq kernel, extraction, OCaml driver, Go harness, net/http's client parser.",
         design="4/C09, Appendix C, O"),
     "C10": dict(
         technique="Coq proof by composition (C06 segmentation + C07 round trip + response writer model) for the server; invariant over all histories for the client callback queue; end-to-end oracle on real servers/clients",
